@@ -22,6 +22,12 @@ type FaultRepo struct {
 	Kind   string // "", "kill", "err"
 	At     int
 	Calls  []string // sequence of repository calls of the current operation (binding of the step model)
+	// Row-level mode (VERIF_ROWFAULT=1): the armed write is not skipped but executed by the real repository with an SQLite
+	// trigger that makes the write of ONE row (the last of the call) fail.  A repository write is one atomic statement in the
+	// specification, so the outcome must be the same as when the whole call fails (err) / never starts (kill): any row of
+	// the same call that was written nevertheless is a partial write.
+	Row  bool
+	Exec func(q string) error // raw SQL on the stack's database
 }
 
 // Arm prepares a fault for the next operation ("none", "kill@k", "err@k").
@@ -45,8 +51,37 @@ func (f *FaultRepo) write(name string) error {
 	return nil
 }
 
+// rowFault reports whether the write now starting is the armed one and must be run in row-level mode.
+func (f *FaultRepo) rowFault() bool {
+	return f.Row && f.Exec != nil && f.Kind != "" && f.Writes+1 == f.At
+}
+
+// withRowTrigger runs the real write while an SQLite trigger aborts the write of the row with the given hash.
+func (f *FaultRepo) withRowTrigger(name, event, col, hash string, real func() error) error {
+	f.Writes++
+	f.Calls = append(f.Calls, name)
+	kind := f.Kind
+	if err := f.Exec("CREATE TRIGGER verif_rowfault BEFORE " + event + " ON headers WHEN " + col + ".hash = '" + hash + "' BEGIN SELECT RAISE(ABORT, 'verif: injected row failure'); END"); err != nil {
+		panic("HARNESS-ERROR: cannot create trigger: " + err.Error())
+	}
+	err := real()
+	if derr := f.Exec("DROP TRIGGER verif_rowfault"); derr != nil {
+		panic("HARNESS-ERROR: cannot drop trigger: " + derr.Error())
+	}
+	if kind == "kill" {
+		panic(killSentinel{f.Writes}) // the process dies in the middle of the write
+	}
+	if err == nil {
+		return errors.New("verif: injected storage failure (the row trigger did not fire)")
+	}
+	return err
+}
+
 // AddHeaderToDatabase is a write boundary.
 func (f *FaultRepo) AddHeaderToDatabase(h domains.BlockHeader) error {
+	if f.rowFault() {
+		return f.withRowTrigger("insert", "INSERT", "NEW", h.Hash.String(), func() error { return f.Headers.AddHeaderToDatabase(h) })
+	}
 	if err := f.write("insert"); err != nil {
 		return err
 	}
@@ -55,6 +90,9 @@ func (f *FaultRepo) AddHeaderToDatabase(h domains.BlockHeader) error {
 
 // UpdateState is a write boundary.
 func (f *FaultRepo) UpdateState(hs []chainhash.Hash, s domains.HeaderState) error {
+	if f.rowFault() && len(hs) > 0 {
+		return f.withRowTrigger("update:"+string(s), "UPDATE", "OLD", hs[len(hs)-1].String(), func() error { return f.Headers.UpdateState(hs, s) })
+	}
 	if err := f.write("update:" + string(s)); err != nil {
 		return err
 	}
